@@ -1468,7 +1468,10 @@ class Key(object):
         :return str: BIP38 password encrypted private key
         """
         flagbyte = b'\xe0' if self.compressed else b'\xc0'
-        return bip38_encrypt(self.private_hex, self.address(), password, flagbyte)
+        # Use the address of this key itself, not the form of the last address which was requested from it
+        address = self.address(encoding=getattr(self, 'encoding', None) or 'base58',
+                               script_type=getattr(self, 'script_type', None) or 'p2pkh')
+        return bip38_encrypt(self.private_hex, address, password, flagbyte)
 
     def wif(self, prefix=None):
         """
